@@ -18,7 +18,7 @@ from .ctx import Ctx
 from .loader import AnalysisError
 from .report import Report
 
-ALL = ["C01", "C02", "C03", "C04", "C05", "C06", "C07", "C08", "C10", "C11", "C12", "C13",
+ALL = ["C01", "C02", "C03", "C04", "C05", "C06", "C07", "C08", "C09", "C10", "C11", "C12", "C13",
        "C14", "C15", "C16", "C17", "C18", "C19", "C20"]
 
 
